@@ -212,8 +212,8 @@ var layouts = map[string][2][]int{
 func variants(kind string, buf []byte) []wireCase {
 	vs := []wireCase{{kind, vh.Hx(buf), "valid"}}
 	for cut := 0; cut < len(buf); cut++ {
-		// big encodings (boundary sizes 16383/16384…): the first and last 40 cuts and every 97th in between
-		if len(buf) > 700 && cut >= 40 && cut < len(buf)-40 && cut%97 != 0 {
+		// big encodings (boundary sizes 16383/16384…): the first and last 12 cuts and six in between
+		if len(buf) > 700 && cut >= 12 && cut < len(buf)-12 && cut%(len(buf)/6+1) != 0 {
 			continue
 		}
 		vs = append(vs, wireCase{kind, vh.Hx(buf[:cut]), "trunc"})
@@ -563,6 +563,16 @@ func runWire(sec *vh.Section, cases []wireCase, verbose bool) {
 		if verbose {
 			fmt.Printf("%s %s\n  impl : %s\n  model: %s\n", c.Kind, c.Hex, im.line(), a2[i])
 		}
+		// the outcome must not depend on what lies behind len(buf): same bytes, spare capacity with poison bytes
+		if po := pooled[i]; po.line() != im.line() && !(po.Kind == "panic" && im.Kind == "panic") {
+			res.Dist(sec, c.Kind+"/"+c.How+"/pooled-differs")
+			res.SpecFail(vh.SpecFailure{Section: "wire", Kind: "reads-outside-buffer", Input: c,
+				Impl: "cap>len (poison behind len): " + po.line() + " || cap==len: " + im.line(), Spec: "the same outcome for the same request bytes", Model: a2[i],
+				ImplEqModel: false, What: "decoder " + modelOp[c.Kind] + " reads bytes behind the end of the request buffer (its outcome depends on the spare capacity of the buffer)"})
+			if w := map[bool]string{true: "panic", false: a2[i]}[mk == "panic"]; po.line() != w {
+				res.Mismatch(vh.Mismatch{Section: "wire", Function: modelOp[c.Kind] + " (buffer with spare capacity)", Input: c, Impl: po.line(), Model: a2[i]})
+			}
+		}
 		if im.Kind == "panic" || im.Kind == "timeout" {
 			f := vh.SpecFailure{Section: "wire", Kind: map[string]string{"panic": "panic", "timeout": "hang"}[im.Kind], Input: c,
 				Impl: im.Kind + " " + im.Val, Spec: "a result or an error", Model: a2[i], ImplEqModel: mk == im.Kind,
@@ -582,16 +592,6 @@ func runWire(sec *vh.Section, cases []wireCase, verbose bool) {
 		}
 		if im.line() != want {
 			res.Mismatch(vh.Mismatch{Section: "wire", Function: modelOp[c.Kind], Input: c, Impl: im.line(), Model: a2[i]})
-		}
-		// the outcome must not depend on what lies behind len(buf): same bytes, spare capacity with poison bytes
-		if po := pooled[i]; po.line() != im.line() && !(po.Kind == "panic" && im.Kind == "panic") {
-			res.Dist(sec, c.Kind+"/"+c.How+"/pooled-differs")
-			res.SpecFail(vh.SpecFailure{Section: "wire", Kind: "reads-outside-buffer", Input: c,
-				Impl: "cap>len (poison behind len): " + po.line() + " || cap==len: " + im.line(), Spec: "the same outcome for the same request bytes", Model: a2[i],
-				ImplEqModel: false, What: "decoder " + modelOp[c.Kind] + " reads bytes behind the end of the request buffer (its outcome depends on the spare capacity of the buffer)"})
-			if po.line() != want {
-				res.Mismatch(vh.Mismatch{Section: "wire", Function: modelOp[c.Kind] + " (buffer with spare capacity)", Input: c, Impl: po.line(), Model: a2[i]})
-			}
 		}
 	}
 	for k, b := range bad {
